@@ -117,7 +117,7 @@ PROPS["C10"] = {
     "verus": [],
     "kani": ["tfm_raw"],
     "witness_always": ["tfm_files"],
-    "witness_bound": {"tfm_files": "whole files through the real tftopl / pltotf algorithms: 8000 (thorough: 60000) generated .tfm files (half well-formed over small section sizes with lig/kern programs, lists, extensible recipes; half noisy / truncated / bit-flipped) and ~4 property-list texts per file (the printed list, a truncation, a one-character mutation, a number replaced by one beyond every limit); C10: no panic in either direction; C11: every warning-free file converts to a canonical file on which a further round trip is the byte-for-byte identity without warnings and which describes the same font (PL equal up to header defaults and unreachable lig/kern instructions); lig/kern programs of 200..520 instructions (at, just below and above 255/256), with and without a boundary character, labels at the ends, around 255/256 and at random positions (120 property lists): every label still points at ITS instruction after PL -> TFM -> PL, no warnings, canonical fixed point"},
+    "witness_bound": {"tfm_files": "whole files through the real tftopl / pltotf algorithms: 8000 (thorough: 60000) generated .tfm files (half well-formed over small section sizes with lig/kern programs, lists, extensible recipes; half noisy / truncated / bit-flipped) and ~4 property-list texts per file (the printed list, a truncation, a one-character mutation, a number replaced by one beyond every limit); C10: no panic in either direction; C11: every warning-free file converts to a canonical file on which a further round trip is the byte-for-byte identity without warnings and which describes the same font (PL equal up to header defaults and unreachable lig/kern instructions; per character the VALUES of width/height/depth/italic, the next-larger link and the extensible recipe, and the parameters, read back from the original and from the canonical bytes, are equal); lig/kern programs of 200..520 instructions (at, just below and above 255/256), with and without a boundary character, labels at the ends, around 255/256 and at random positions (120 property lists): every label still points at ITS instruction after PL -> TFM -> PL, no warnings, canonical fixed point"},
     "unverified_callers": [
         "validate_and_fix (480 lines over HashMap<Char,..>), from_raw_file iterator glue, Header::deserialize string handling",
         "the whole PL text side: pl/cst.rs, pl/ast.rs, From<pl::File> for File, serialize_char_infos - 'arbitrary text never panics' and 'PL->TFM output is a readable TFM' are NOT decided",
@@ -129,7 +129,7 @@ PROPS["C11"] = {
     "verus": [],
     "kani": ["tfm_raw"],
     "witness_always": ["tfm_files"],
-    "witness_bound": {"tfm_files": "whole files through the real tftopl / pltotf algorithms: 8000 (thorough: 60000) generated .tfm files (half well-formed over small section sizes with lig/kern programs, lists, extensible recipes; half noisy / truncated / bit-flipped) and ~4 property-list texts per file (the printed list, a truncation, a one-character mutation, a number replaced by one beyond every limit); C10: no panic in either direction; C11: every warning-free file converts to a canonical file on which a further round trip is the byte-for-byte identity without warnings and which describes the same font (PL equal up to header defaults and unreachable lig/kern instructions); lig/kern programs of 200..520 instructions (at, just below and above 255/256), with and without a boundary character, labels at the ends, around 255/256 and at random positions (120 property lists): every label still points at ITS instruction after PL -> TFM -> PL, no warnings, canonical fixed point"},
+    "witness_bound": {"tfm_files": "whole files through the real tftopl / pltotf algorithms: 8000 (thorough: 60000) generated .tfm files (half well-formed over small section sizes with lig/kern programs, lists, extensible recipes; half noisy / truncated / bit-flipped) and ~4 property-list texts per file (the printed list, a truncation, a one-character mutation, a number replaced by one beyond every limit); C10: no panic in either direction; C11: every warning-free file converts to a canonical file on which a further round trip is the byte-for-byte identity without warnings and which describes the same font (PL equal up to header defaults and unreachable lig/kern instructions; per character the VALUES of width/height/depth/italic, the next-larger link and the extensible recipe, and the parameters, read back from the original and from the canonical bytes, are equal); lig/kern programs of 200..520 instructions (at, just below and above 255/256), with and without a boundary character, labels at the ends, around 255/256 and at random positions (120 property lists): every label still points at ITS instruction after PL -> TFM -> PL, no warnings, canonical fixed point"},
     "unverified_callers": [
         "WORD LEVEL ONLY: pl::File::display / from_pl_source_code (text), From<pl::File> for File and back, pack_entrypoints/unpack_entrypoint, table compression - the composition to a byte-for-byte fixed point is NOT decided",
     ],
